@@ -1,5 +1,7 @@
 package otp
 
+import "net/url"
+
 // C12 — caller data and package defaults are never modified.
 // C11 (reduced) — per-call write frame, pool ownership, non-interference with pool
 // content and history, no aliasing of results; see DESIGN.md for the reduction to schedules.
@@ -198,4 +200,30 @@ func verifH_C12_registry() {
 	if verifSymbolic() {
 		verifAssert(!verifAliases(l1, l2), "each-list-is-a-fresh-slice")
 	}
+}
+
+// a parsed URL handed to ParseOTPAuthURL is not modified (type in any letter case, any label)
+//
+//verif:harness prop=C12 name=url
+//verif:cases quick hostlen=4 pathlen=3,6
+//verif:opt maxpaths=4000
+func verifH_C12_url() {
+	hb := verifBytes("host", verifCase("hostlen"))
+	for _, c := range hb {
+		verifAssume(c < 0x80)
+	}
+	pb := verifBytes("path", verifCase("pathlen"))
+	q := url.Values{}
+	q.Set("secret", "JBSWY3DPEHPK3PXP")
+	q.Set("digits", "8")
+	u := &url.URL{Scheme: "otpauth", Host: string(hb), Path: "/" + string(pb), RawQuery: q.Encode()}
+	before := *u
+	verifProtect(u)
+	verifBeginOp()
+	p, err := ParseOTPAuthURL(u)
+	verifEndOp()
+	verifObserve("err", err == nil)
+	_ = p
+	verifAssert(*u == before, "parsed-url-argument-unchanged")
+	verifAssert(verifFrameViolations() == 0, "writes-only-call-private-memory")
 }
